@@ -180,9 +180,11 @@ func hasLit(ls []Lit, pred func(Lit) bool) bool {
 func (c *Ctx) ruleIgnoreScope() {
 	P := c.P
 	var ps *parseSite
+	var pss []*parseSite
 	for _, s := range c.parseSites() {
 		if s.Keyword == "@ignore" {
 			ps = s
+			pss = append(pss, s)
 		}
 	}
 	if ps == nil || len(ps.Call.Call.Args) != 3 {
@@ -260,6 +262,18 @@ func (c *Ctx) ruleIgnoreScope() {
 	}
 
 	leaves := c.pairCases(startV, endV, nil, nil, 0)
+	if len(pss) > 1 {
+		// one call of the parser per placement (`return parse(text, start, file.End())` under each test): the
+		// conditions of each call select its pair
+		leaves = nil
+		for _, s := range pss {
+			if len(s.Call.Call.Args) != 3 || s.Call.Parent() != ps.Call.Parent() || P.Desc(s.Text) != P.Desc(ps.Text) {
+				c.undecided("SCOPE", name, where, "several calls of the @ignore parser that do not parse the same comment in one function: shape not recognised")
+				return
+			}
+			leaves = append(leaves, c.pairCases(s.Call.Call.Args[1], s.Call.Call.Args[2], P.BlockGuards(s.Call.Block()), nil, 0)...)
+		}
+	}
 	if len(leaves) < 2 {
 		c.undecided("SCOPE", name, where, "start/end of the @ignore scope are not selected in one place (a pair of phis, or the two results of one helper): shape not recognised")
 		return
